@@ -2,12 +2,12 @@
 (* all histories up to MaxLen over the call alphabet: repetitions, interleavings *)
 (* with another map, two gradual handles over the same map and settings.         *)
 EXTENDS Session, Json
-CONSTANT MaxLen, Wide, Lockstep     \* Lockstep: only the two taiko calculators with different settings, long histories
+CONSTANT MaxLen, Wide, Lockstep     \* Lockstep: "" or a map name: only two calculators with different settings over that map, long histories
 VARIABLES hist, pos
 vars == <<hist, pos>>
 C(op, m, cfg, h) == [op |-> op, m |-> m, cfg |-> cfg, h |-> h]
 Alphabet ==
-  IF Lockstep THEN {C("gnext", "m2", "C", "h3"), C("gnext", "m2", "D", "h4")} ELSE
+  IF Lockstep # "" THEN {C("gnext", Lockstep, "C", "h3"), C("gnext", Lockstep, "D", "h4")} ELSE
   {C("decode", "m1", "-", "-"), C("bpm", "m1", "-", "-"), C("convert", "m1", "taiko", "-"),
    C("calc", "m1", "A", "-"), C("calc", "m2", "A", "-"), C("perf", "m1", "A", "-"),
    C("gnext", "m1", "A", "h1"), C("gnext", "m1", "A", "h2"),
